@@ -301,6 +301,8 @@ func ruleIndexComaintenance(c *Ctx) {
 		}
 		c.Floor("callers of removeFromMapWithFeesAndAttrs", ncall, 2)
 	}
+	ruleRefreshResets(c)
+	ruleMultimapAppend(c)
 	// fee sums are adjusted only for the payer of the very transaction concerned
 	runGates(c, []GateSpec{{
 		ID: "checkTxConflicts.fee-credit", Fn: [3]string{mpPkg, "Pool", "checkTxConflicts"}, Target: "call:github.com/holiman/uint256.(*Int).SubUint64",
@@ -458,4 +460,106 @@ func ruleIndexFresh(c *Ctx) {
 		c.Fail(FuncKey(fd.Obj)+".stale-position", c.P.Pos(ps[0]), fc.bad[ps[0]]+": the sorted order / bounds of the pool are computed on a slice that no longer exists")
 	}
 	c.Floor("position variables over verifiedTxes", nvars, 2)
+}
+
+// ruleRefreshResets: RemoveStale rebuilds the per-payer balance cache and the conflicts index from scratch; both
+// must be reset (clear(...) or a whole-field assignment) on every path through the function, whatever the pool holds.
+func ruleRefreshResets(c *Ctx) {
+	fd := c.P.Func(mpPkg, "Pool", "RemoveStale")
+	if fd == nil {
+		return // reported by the maintains.* obligations
+	}
+	f := c.P.NewFuncCFG(fd)
+	for _, fld := range []string{"pkg/core/mempool#fees", "pkg/core/mempool#conflicts"} {
+		resets := map[*cfg.Block]bool{}
+		for _, b := range f.G.Blocks {
+			if !b.Live {
+				continue
+			}
+			for _, n := range b.Nodes {
+				inspectNoLit(n, func(x ast.Node) bool {
+					switch y := x.(type) {
+					case *ast.CallExpr:
+						if f.calleeSym(y) == "builtin.clear" && len(y.Args) == 1 && f.DirectMentions(y.Args[0])[fld] {
+							resets[b] = true
+						}
+					case *ast.AssignStmt:
+						for _, lh := range y.Lhs {
+							if se, ok := ast.Unparen(lh).(*ast.SelectorExpr); ok && symOf(f.Info.ObjectOf(se.Sel)) == fld {
+								resets[b] = true
+							}
+						}
+					}
+					return true
+				})
+			}
+		}
+		key := "RemoveStale.resets." + shortSym(fld)
+		if len(resets) == 0 {
+			c.Fail(key, c.P.Pos(fd.Decl.Pos()), "Pool.RemoveStale no longer resets "+shortSym(fld)+" before rebuilding it: entries of transactions and payers that left the pool survive the block")
+			continue
+		}
+		r := f.reach(f.Entry(), resets, nil)
+		bad := ""
+		var path []string
+		for _, rs := range f.OKReturns() {
+			if resets[rs.blk] {
+				continue
+			}
+			if _, ok := r[rs.blk]; ok {
+				bad = c.P.Pos(rs.node.Pos())
+				path = f.pathTo(r, rs.blk)
+				break
+			}
+		}
+		if bad != "" {
+			c.Fail(key, c.P.Pos(fd.Decl.Pos()), "Pool.RemoveStale can return (at "+bad+") without resetting "+shortSym(fld)+": what the pool cached before the block (payer balances, conflict links) is then used against the new ledger state", path...)
+		} else {
+			c.OK(key, c.P.Pos(fd.Decl.Pos()), "every path through Pool.RemoveStale resets "+shortSym(fld))
+		}
+	}
+}
+
+// ruleMultimapAppend: the conflicts index maps a hash to *all* pooled transactions naming it; an element store
+// must extend or filter the element it replaces (read-modify-write of the same map), never overwrite it.
+func ruleMultimapAppend(c *Ctx) {
+	pk := c.P.Pkg(mpPkg)
+	if pk == nil {
+		return
+	}
+	const fld = "pkg/core/mempool#conflicts"
+	n := 0
+	for _, fd := range c.P.AllFuncDecls() {
+		if fd.Pkg != pk || fd.Decl.Body == nil {
+			continue
+		}
+		f := c.P.NewFuncCFG(fd)
+		idx := 0
+		ast.Inspect(fd.Decl.Body, func(x ast.Node) bool {
+			as, ok := x.(*ast.AssignStmt)
+			if !ok || len(as.Lhs) != len(as.Rhs) {
+				return true
+			}
+			for i, lh := range as.Lhs {
+				ie, ok := ast.Unparen(lh).(*ast.IndexExpr)
+				if !ok {
+					continue
+				}
+				se, ok := ast.Unparen(ie.X).(*ast.SelectorExpr)
+				if !ok || symOf(f.Info.ObjectOf(se.Sel)) != fld {
+					continue
+				}
+				n++
+				idx++
+				key := fmt.Sprintf("%s.conflicts-store#%d", FuncKey(fd.Obj), idx)
+				if f.DirectMentions(as.Rhs[i])[fld] {
+					c.OK(key, c.P.Pos(as.Pos()), "the stored list is derived from the list it replaces")
+				} else {
+					c.Fail(key, c.P.Pos(as.Pos()), "an element of the conflicts index is overwritten with a list that is not derived from the one it replaces: other pooled transactions naming the same hash are forgotten and stay pooled next to it")
+				}
+			}
+			return true
+		})
+	}
+	c.Floor("element stores into the conflicts index", n, 3)
 }
